@@ -17,6 +17,8 @@ type gen struct {
 	cs    *Case
 	w     *world
 	style string
+	// itMade: a lines iterator has been taken from the handle now in the slot
+	itMade [2]bool
 }
 
 func (g *gen) emit(op Op) {
@@ -206,6 +208,7 @@ func (g *gen) openHandle(i int) {
 		mode = modes12[r.Intn(len(modes12))]
 	}
 	g.emit(Op{H: i, Op: "open", Mode: mode})
+	g.itMade[i] = false
 	if g.w.hs[i].live() && g.w.hs[i].wr && r.Intn(5) == 0 {
 		g.setvbuf(i)
 	}
@@ -222,7 +225,10 @@ func (g *gen) setvbuf(i int) {
 }
 
 func (g *gen) closedOp(i int) {
-	switch g.r.Intn(8) {
+	switch g.r.Intn(10) {
+	case 8, 9:
+		// the iterator taken before the close, or f:lines() on the closed handle
+		g.emit(Op{H: i, Op: "itnext"})
 	case 0:
 		g.emit(Op{H: i, Op: "read", Fmts: []string{g.readFmt(i)}})
 	case 1:
@@ -267,9 +273,13 @@ func ifv(b bool, x, y int) int {
 func (g *gen) step(i int) {
 	h := &g.w.hs[i]
 	r := g.r
-	kinds := []string{"read", "write", "seek", "flush", "lines", "setvbuf", "close"}
-	k := kinds[weighted(r, []int{ifv(h.rd, 25, 2), ifv(h.wr, 25, 2), 16, ifv(h.wr, 6, 1), ifv(h.rd, 5, 1), ifv(h.wr, 3, 1), 2})]
+	kinds := []string{"read", "write", "seek", "flush", "lines", "setvbuf", "close", "itnext"}
+	k := kinds[weighted(r, []int{ifv(h.rd, 25, 2), ifv(h.wr, 25, 2), 16, ifv(h.wr, 6, 1), ifv(h.rd, 5, 1), ifv(h.wr, 3, 1), 2, ifv(h.rd, 5, 0)})]
 	switch k {
+	case "itnext":
+		g.prelude(i, true, false)
+		g.emit(Op{H: i, Op: "itnext"})
+		g.itMade[i] = true
 	case "read":
 		g.prelude(i, true, false)
 		nf := 1
@@ -302,6 +312,10 @@ func (g *gen) step(i int) {
 		g.setvbuf(i)
 	case "close":
 		g.emit(Op{H: i, Op: "close"})
+		if g.itMade[i] && r.Intn(3) != 0 {
+			// the iterator outlives its handle: it must raise, not serve read-ahead
+			g.emit(Op{H: i, Op: "itnext"})
+		}
 	}
 }
 
